@@ -28,6 +28,12 @@ CHECKS = {
  "C07": ("exploration", "runtime monitor: exhaustive boundary-grid pairs + random 64-bit patterns through EvalString vs math/big / IEEE oracle, plus trichotomy and symmetry on the interpreter's own answers",
          "Every ordered pair of a 47-value boundary grid (exhaustive) and thousands of random bit patterns are evaluated under every comparison and arithmetic operator with operands injected bit-exactly and as literals; an independent exact oracle decides each result.",
          "Trusted: math/big and Go float64 arithmetic; pairings the statement does not name (uint64 vs others) are not judged.", "DESIGN.md §4.C07"),
+ "C14": ("exploration", "runtime monitor: operation histories on one hash vs ordered-map model, every script-level view read after each history (exhaustive to a length bound + random long histories)",
+         "All hset/hdel sequences up to a length bound over a key universe with bucket-sharing unequal keys are replayed on the real hash; len, keys, hpair, hget with and without default, str, json and both range forms are compared with an ordered-map model.",
+         "Trusted: the 40-line ordered-map model; JSON only checked for value order here (C11 checks well-formedness).", "DESIGN.md §4.C14"),
+ "C19": ("exploration", "runtime monitor: exhaustive API histories over an interpreter family (MakeSymbol/GenSymbol/Duplicate/Clone) against a name<->number bijection, plus script-level histories",
+         "Every sequence of 4 (quick) / 5 (thorough) operations over three family members and a name pool of generated-looking names is executed against the real symbol table; each returned symbol is entered into a global bijection and generated symbols must be new; script histories check (== a b) and hash-key identity.",
+         "Trusted: the bijection bookkeeping of the monitor; sequences addressing a not-yet-existing member are cut.", "DESIGN.md §4.C19"),
 }
 
 NA_REASON = {}
